@@ -22,9 +22,9 @@ structure Close (s : Sys) : Prop where
       th.cmd = closeCmd
   sent : ∀ (t : Nat) (th : Thr), s.thr[t]? = some th → th.closing = true → sentPc th.pc = true →
       (monOf s.wire).closed = true
-  /-- the closing thread finishes only by deactivating the session -/
+  /-- the closing thread finishes only by deactivating the session — or with a call that failed -/
   doneDeact : ∀ (t : Nat) (th : Thr), s.thr[t]? = some th → th.kind = .closer → th.pc = .done →
-      s.activated = false
+      (s.activated = false ∨ ∃ r ∈ th.results, r.isOk = false) ∧ (monOf s.wire).closed = true ∧ th.closing = true
   /-- the session is deactivated only after Close Session has been transmitted -/
   deactClosed : s.activated = false → (monOf s.wire).closed = true
 
@@ -35,7 +35,9 @@ theorem close_frame {s s' : Sys} {t : Nat} {th th' : Thr} (hc : Close s) (hget :
     (hbusy : th'.kind = .closer → th'.closing = false → plain th'.pc = true → 2 ≤ th'.todo)
     (hcmd : th'.closing = true → plain th'.pc = true → th'.cmd = closeCmd)
     (hsent : th'.closing = true → sentPc th'.pc = true → (monOf s'.wire).closed = true)
-    (hdone : th'.kind = .closer → th'.pc = .done → s'.activated = false)
+    (hdone : th'.kind = .closer → th'.pc = .done →
+      (s'.activated = false ∨ ∃ r ∈ th'.results, r.isOk = false) ∧ (monOf s'.wire).closed = true ∧
+        th'.closing = true)
     (hdc : s'.activated = false → (monOf s'.wire).closed = true) : Close s' := by
   constructor
   · intro t1 th1 h1 a b c
@@ -57,7 +59,8 @@ theorem close_frame {s s' : Sys} {t : Nat} {th th' : Thr} (hc : Close s) (hget :
     rw [hthr] at h1
     rcases get_set_cases hget h1 with ⟨rfl, rfl⟩ | ⟨_, g1⟩
     · exact hdone a b
-    · exact hact (hc.doneDeact _ _ g1 a b)
+    · exact ⟨(hc.doneDeact _ _ g1 a b).1.imp hact id, hclm (hc.doneDeact _ _ g1 a b).2.1,
+        (hc.doneDeact _ _ g1 a b).2.2⟩
   · exact hdc
 
 /-- A step along the call path that keeps kind, `closing`, command and `todo`. -/
@@ -86,7 +89,7 @@ theorem close_plain {s s' : Sys} {t : Nat} {th th' : Thr} (hc : Close s) (hget :
     rw [hact] at a
     exact hclm (hc.deactClosed a)
 
-theorem stepThr_close {s s' : Sys} {t : Nat} {th : Thr} (hi : Inv s) (ht : Tear s) (hc : Close s)
+theorem stepThr_close {s s' : Sys} {t : Nat} {th : Thr} (_hi : Inv s) (ht : Tear s) (hc : Close s)
     (hget : s.thr[t]? = some th) (h : stepThr s t th = some s') : Close s' := by
   cases hpc : th.pc with
   | idle =>
@@ -174,19 +177,19 @@ theorem stepThr_close {s s' : Sys} {t : Nat} {th : Thr} (hi : Inv s) (ht : Tear 
         · intro _ _; exact Or.inl (by rw [hpc]; rfl)
       | nil =>
         simp [hq, hsk] at h; subst h
-        exact close_plain hc hget rfl rfl id rfl rfl rfl rfl (by rw [hpc]; rfl) rfl
-          (fun _ _ => Or.inl (by rw [hpc]; rfl))
+        refine close_plain hc hget rfl rfl ?_ rfl rfl rfl rfl (by rw [hpc]; rfl) ?_ ?_
+        · intro h; simp [Sys.upd, Mon.step, h]
+        · simp only []; (repeat' split) <;> rfl
+        · intro _ _; exact Or.inl (by rw [hpc]; rfl)
   | requeue =>
     simp [stepThr, hpc] at h; subst h
-    exact close_plain hc hget rfl rfl id rfl rfl rfl rfl (by rw [hpc]; rfl) rfl
+    refine close_plain hc hget rfl rfl id rfl rfl rfl rfl (by rw [hpc]; rfl) ?_
       (fun _ _ => Or.inl (by rw [hpc]; rfl))
+    simp only []; split <;> rfl
   | release =>
-    -- the call returned a reply (wire invariant): a closing thread goes on to the store
-    have hown : s.lock = some t := (hi.owner t th hget).mp (by rw [hpc]; rfl)
-    have hh := hi.holder t th hget hown
-    simp [HolderInv, hpc] at hh
-    obtain ⟨_, _, _, _, ⟨r, hr1, _⟩, _⟩ := hh
-    simp [stepThr, hpc, hr1] at h; subst h
+    suffices key : ∀ res : CallRes, Close ({ s with lock := none }.upd t (afterCall th res)) by
+      simp [stepThr, hpc] at h; subst h; exact key _
+    intro res
     refine close_frame hc hget rfl id id ?_ ?_ ?_ ?_ hc.deactClosed
     · intro a b c
       have a' : th.kind = .closer := a
@@ -202,16 +205,20 @@ theorem stepThr_close {s s' : Sys} {t : Nat} {th : Thr} (hi : Inv s) (ht : Tear 
     · intro a b
       have a' : th.closing = true := a
       have hk := ht.closingKind _ _ hget a'
-      simp only [afterCall, nextPc, hk, a', CallRes.isOk, if_true] at b
-      cases b
+      simp only [afterCall, nextPc, hk, a', if_true] at b
+      split at b <;> cases b
     · intro a b
       have a' : th.closing = true := a
       exact hc.sent _ _ hget a' (by rw [hpc]; rfl)
     · intro a b
       have a' : th.kind = .closer := a
-      simp only [afterCall, nextPc, a', CallRes.isOk, if_true] at b
+      simp only [afterCall, nextPc, a'] at b
       by_cases hcl : th.closing = true
-      · rw [if_pos hcl] at b; cases b
+      · rw [if_pos hcl] at b
+        refine ⟨Or.inr ⟨res, by simp [afterCall], ?_⟩, hc.sent _ _ hget hcl (by rw [hpc]; rfl), hcl⟩
+        cases hok : res.isOk with
+        | false => rfl
+        | true => rw [hok] at b; cases b
       · have hcl' : th.closing = false := by simpa using hcl
         have h2 := hc.busy _ _ hget a' hcl' (by rw [hpc]; rfl)
         rw [if_neg hcl, if_neg (by omega)] at b
@@ -281,12 +288,12 @@ theorem stepThr_close {s s' : Sys} {t : Nat} {th : Thr} (hi : Inv s) (ht : Tear 
       · cases b
       · rename_i hna
         have : s.activated = false := by simpa using hna
-        exact this
+        exact ⟨Or.inl this, hc.deactClosed this, by rw [if_neg hna]; exact hcl⟩
   | actStore =>
     have hcl : th.closing = true := ht.lateClosing _ _ hget (by rw [hpc]; rfl)
     have hcd := hc.sent _ _ hget hcl (by rw [hpc]; rfl)
     simp [stepThr, hpc] at h; subst h
-    refine close_frame hc hget rfl (fun _ => rfl) id ?_ ?_ ?_ (fun _ _ => rfl) (fun _ => hcd)
+    refine close_frame hc hget rfl (fun _ => rfl) id ?_ ?_ ?_ (fun _ _ => ⟨Or.inl rfl, hcd, hcl⟩) (fun _ => hcd)
     · intro _ _ c; cases c
     · intro _ c; cases c
     · intro _ c; cases c
